@@ -97,7 +97,9 @@ def appends(fn, P, L, creation_block=None):
             bt = be_call_type(el0) if el0 is not None else None
             if bt and bt[0] == 'to' and APPEND[ln] == 'bytes' and el0.args:
                 arr = E('aggr', 'array', [be_byte(el0.args[0], bt[1], kk) for kk in range(bt[2])], c={'akind': 'array'})
-                out.append(Append(b, 'bytesplit', arr, 'push', b in loops))
+                ap_ = Append(b, 'bytesplit', arr, 'push', b in loops)
+                ap_.orig = elems[0]
+                out.append(ap_)
                 continue
             out.append(Append(b, APPEND[ln], elems[0] if elems else None, t['fn']['name'], b in loops))
         else:
@@ -195,8 +197,11 @@ class Canon:
         if not (cr.k == 'call' and last(cr.name) in ('new', 'with_capacity')):
             out.append('INIT:' + self.c(cr))
         for a in seq:
-            if a.kind == 'bytesplit' and not a.in_loop:
-                out.extend(self.c(x) for x in a.elem.args)     # the bytes of x.to_be_bytes(), one element each
+            if a.kind == 'bytesplit':
+                # `v.extend_from_slice(&x.to_be_bytes())`: one element in the sequence (rules that want the single bytes
+                # use Append.elem, the array of the n byte expressions)
+                el = self.c(a.orig)
+                out.append('LOOP(bytes:%s)' % el if a.in_loop else el)
                 continue
             el = self.c(a.elem) if a.elem is not None else '?'
             if a.in_loop:
